@@ -5,6 +5,7 @@ package univ
 
 import (
 	"context"
+	"encoding/json"
 	"errors"
 	"fmt"
 	"io"
@@ -46,6 +47,9 @@ type Exec struct {
 	// cancellation point (C05): the CancelAt-th resolver invocation (1-based) cancels the operation
 	// context before it produces its result (or after, if CancelAfter); with HoldEarlier every
 	// earlier invocation stays in flight (bounded) until the cancellation happened
+	// Echo: String-typed resolver results describe what the resolver saw of the request (arguments,
+	// operation name, variables, extensions, X-Echo header): C07 looks for leaks between requests
+	Echo        bool
 	CancelAt    int64
 	CancelAfter bool
 	HoldEarlier bool
@@ -412,6 +416,36 @@ func (u *Universe) makeResolver(def *ast.Definition, fd *ast.FieldDefinition, ft
 		}
 		if stream {
 			return []reflect.Value{u.buildStream(ctx, e, retT, fd.Type, path), noErr}
+		}
+		if e.Echo && fd.Type.Elem == nil && (retT.Kind() == reflect.String || (retT.Kind() == reflect.Ptr && retT.Elem().Kind() == reflect.String)) {
+			first := 1
+			if !isRoot {
+				first = 2
+			}
+			m := map[string]any{}
+			for i := first; i < len(in); i++ {
+				if i-first < len(fd.Arguments) {
+					m[fd.Arguments[i-first].Name] = ToTree(in[i])
+				}
+			}
+			desc := map[string]any{"path": path, "args": m}
+			if oc := graphql.GetOperationContext(ctx); oc != nil {
+				desc["operationName"] = oc.OperationName
+				desc["variables"] = oc.Variables
+				desc["extensions"] = oc.Extensions
+				desc["header"] = oc.Headers.Values("X-Echo")
+				desc["query_len"] = len(oc.RawQuery)
+			}
+			b, _ := json.Marshal(desc)
+			sv := reflect.New(retT).Elem()
+			if retT.Kind() == reflect.Ptr {
+				p := reflect.New(retT.Elem())
+				p.Elem().SetString(string(b))
+				sv.Set(p)
+			} else {
+				sv.SetString(string(b))
+			}
+			return []reflect.Value{sv, noErr}
 		}
 		return []reflect.Value{u.buildValue(e, retT, fd.Type, path), noErr}
 	})
